@@ -111,8 +111,12 @@ class Acc(object):
         return NotImplemented
 
     def __ne__(self, o):
-        r = self.__eq__(o)
-        return r if r is NotImplemented else not r
+        # deliberately not the negation of __eq__ (a saturated accumulator differs from everything)
+        if isinstance(o, int):
+            return self.total != o or self.total == 3
+        if isinstance(o, Acc):
+            return o is not self
+        return NotImplemented
 
     def __lt__(self, o):
         return self.total < o
@@ -294,6 +298,9 @@ def perform(kind, op, x):
     if o == "ne_bytes": return x != T[a]
     if o == "lt_int": return x < (a if kind == "user" else 1)
     if o == "gt_int": return x > 1
+    if o == "or_int": return x | 1
+    if o == "ror_int": return 1 | x
+    if o == "callable": return callable(x)
     if o == "call": return x(a) if kind == "user" else x()
     if o == "call_kw": return x(a, k=b)
     if o == "call_bad": return x(1, 2, 3)
@@ -423,7 +430,7 @@ def spec_result(r):
 class World(object):
     """one connection pair per configuration; targets are created on side B, operated on from side A"""
 
-    def __init__(self, cfgname):
+    def __init__(self, cfgname, class_first=False):
         import rpyc
         self.cfgname = cfgname
         world = self
@@ -434,10 +441,15 @@ class World(object):
                 x, h = make_target(kind, json.loads(js))
                 world.made = (x, h)
                 return x
+
+            def exposed_classes(self):
+                return (Acc, collections.deque, io.BytesIO, type(make_target("gen", 0)[0]))
         conf = dict(CONFIGS[cfgname])
         self.pair = Pair(rpyc.VoidService(), Svc(), config_a=dict(conf), config_b=dict(conf), patch_time=False)
         a = self.pair.a
         self.make = a.call(lambda: a.conn.root.make)
+        # class_first: the holder has seen the targets' class objects before any instance (proxy classes are cached per class)
+        self.classes = a.call(lambda: a.conn.root.classes()) if class_first else None
 
     def new(self, kind, st):
         a = self.pair.a
@@ -567,6 +579,7 @@ def main():
     rnd = random.Random(chk.seed + 2)
     table = load_table(chk)
     worlds = {c: World(c) for c in CONFIGS}
+    cworlds = {c: World(c, class_first=True) for c in CONFIGS}
     nrows = 0
     drift_seen = {}
     index = {}
@@ -581,12 +594,15 @@ def main():
                 rows = list(rows)
                 rnd.shuffle(rows)
                 rows = rows[:{"file": 350, "user": 450, "dict": 400}.get(kind, 300)]
+                # operations that tell an instance's proxy class from its type's are always executed
+                rows += [r for r in table[kind] if r["op"][0] in ("callable", "or_int", "ror_int", "call") and r not in rows][:16]
             for i, row in enumerate(rows):
                 cfgs = list(CONFIGS) if chk.thorough else ["classic", rnd.choice(["public", "public_rw", "default"])]
+                sensitive = kind in ("user", "deque", "file", "gen") and row["op"][0] in ("call", "or_int", "ror_int", "callable")
                 if kind == "set" and row["op"][0] == "pop" and len(row["s"]) > 1 and min(row["s"]) != row["op"][1]:
                     continue        # which element a set pops is the implementation's choice: one execution per state
                 for cfgname in cfgs:
-                    w = worlds[cfgname]
+                    w = (cworlds if ((i % 3 == 2 or sensitive) and kind in ("user", "deque", "file", "gen")) else worlds)[cfgname]
                     proxy, target, handle = w.new(kind, row["s"])
                     twin, twin_handle = make_target(kind, row["s"])
                     bad, drift, got, after, _ = judge_step(w, kind, row, proxy, target, handle, twin, twin_handle,
@@ -616,7 +632,7 @@ def main():
         for wi in range(120 if not chk.thorough else 2500):
             kind = KINDS[wi % len(KINDS)]
             cfgname = "classic" if wi % 3 else rnd.choice(list(CONFIGS))
-            w = worlds[cfgname]
+            w = (cworlds if wi % 5 == 4 else worlds)[cfgname]
             st = init[kind]
             proxy, target, handle = w.new(kind, st)
             twin, twin_handle = make_target(kind, st)
@@ -651,7 +667,7 @@ def main():
             if wi % 50 == 49:
                 gc.collect()
     finally:
-        for w in worlds.values():
+        for w in list(worlds.values()) + list(cworlds.values()):
             w.close()
     validate_walks(chk, traces)
     buffiter_part(chk, rnd)
